@@ -6,7 +6,7 @@ import itertools
 
 import numpy as np
 
-from ..core import Discrepancy, Law, must, require
+from ..core import attempt, Discrepancy, Law, must, require
 from ..model import groups as G
 
 PROPERTY_ID = "C17"
@@ -99,6 +99,19 @@ def law_axioms(ch):
                 "identity-neutral",
                 f"{s}: {c!r}",
             )
+        # the library's own validity predicate rejects labels outside the
+        # group (it is what "a valid charge" refers to)
+        nonmembers = {"Z2": [2, -1, 3], "Z4": [4, -1, 7],
+                      "U1": [0.5, (0, 0)],
+                      "Z2Z2": [(0, 2), (2, 0), (-1, 1), (1, 3), 1],
+                      "U1U1": [(0.5, 0), (0, 0.5), 3]}[s]
+        for c in nonmembers:
+            ok, r = attempt(sym.valid, c)
+            require(not (ok and r), "valid-accepts-nonmember",
+                    f"{s}: valid({c!r}) = {r!r}")
+            ok, r = attempt(sym.valid, ident, c)
+            require(not (ok and r), "valid-accepts-nonmember",
+                    f"{s}: valid({ident!r}, {c!r}) = {r!r}")
         # generators (single-fermion charges) are odd
         gens = {"Z2": [1], "Z4": [1], "U1": [1], "Z2Z2": [(0, 1), (1, 0)],
                 "U1U1": [(0, 1), (1, 0)]}[s]
